@@ -211,3 +211,30 @@ Definition wf_graphb (g : graph) : bool :=
 
 (* namespaces are the keys of the includes section: distinct within a file *)
 Definition wf_outb (g : graph) : bool := forallb (fun n => nodupb (map (fun e => i_ns (fst e)) (n_out n))) g.
+
+(* ------------------------------------------------------------------ *)
+(* the task listing (--list / --list-all, plain and --json) as a function of the merged table:
+   Executor.GetTaskList takes the keys of the table, orders them with sort.AlphaNumericWithRootTasksFirst
+   (keys without ':' first, each group in byte order), drops internal tasks (and, for --list, tasks without
+   desc); the plain listing prints Task, ToEditorOutput prints Name() = label or Task, entry i for task i *)
+Fixpoint contains_colon (s : string) : bool :=
+  match s with EmptyString => false | String c r => Ascii.eqb c ":"%char || contains_colon r end.
+Definition root_first_leb (a b : string) : bool :=
+  match contains_colon a, contains_colon b with
+  | false, true => true
+  | true, false => false
+  | _, _ => String.leb a b
+  end.
+Fixpoint insert_sorted {A} (k : A -> string) (x : A) (l : list A) : list A :=
+  match l with
+  | [] => [x]
+  | y :: r => if root_first_leb (k x) (k y) then x :: l else y :: insert_sorted k x r
+  end.
+Definition sort_root_first {A} (k : A -> string) (l : list A) : list A := fold_right (insert_sorted k) [] l.
+
+Definition listed (only_desc : bool) (tbl : table) : table :=
+  sort_root_first fst
+    (filter (fun kt => negb (t_internal (snd kt)) && (negb only_desc || negb (String.eqb (attr "Desc" (t_attrs (snd kt))) ""))) tbl).
+Definition listing_plain (only_desc : bool) (tbl : table) : list string := map fst (listed only_desc tbl).
+Definition listing_json (only_desc : bool) (tbl : table) : list string :=
+  map (fun kt => match attr "Label" (t_attrs (snd kt)) with EmptyString => t_task (snd kt) | l => l end) (listed only_desc tbl).
